@@ -182,7 +182,7 @@ def generate(tier, seed):
     n_rand = 40 if tier == "quick" else 6000
     for k in range(n_rand):
         cases.append({"kind": "rand", "k": k, "n": 500})
-    for k in range(16 if tier == "quick" else 1500):
+    for k in range(48 if tier == "quick" else 1500):
         cases.append({"kind": "disk", "k": k})
     return cases
 
